@@ -17,8 +17,12 @@ pub fn run_slice(ctx: &Ctx, pkg: &str, manifest_dir: &str, n: usize, slice_budge
     let so = String::from_utf8_lossy(&out.stdout); let se = String::from_utf8_lossy(&out.stderr);
     let secs = t0.elapsed().as_secs();
     let summary = so.lines().find(|l| l.starts_with("MIRI-SLICE")).map(|s| s.to_string());
-    if let Some(l) = se.lines().find(|l| l.contains("Undefined Behavior")) {
-        let ctxl: Vec<&str> = se.lines().skip_while(|x| !x.contains("Undefined Behavior")).take(12).collect();
+    // "Undefined Behavior" = Miri's own (language-level) checks; "unsafe precondition(s) violated" = the standard library's check
+    // of a library-level precondition of an `unsafe fn` (`get_unchecked`, `from_u32_unchecked`, ...), which under Miri's sysroot
+    // (built with debug assertions) ends in a non-unwinding panic + abort instead of an "Undefined Behavior" diagnostic
+    const UB_MARKS: [&str; 2] = ["Undefined Behavior", "unsafe precondition(s) violated"];
+    if let Some(l) = se.lines().find(|l| UB_MARKS.iter().any(|m| l.contains(m))) {
+        let ctxl: Vec<&str> = se.lines().skip_while(|x| !UB_MARKS.iter().any(|m| x.contains(m))).take(12).collect();
         return MiriRun { status: format!("UB diagnostic after {secs}s: {}", ctxl.join(" | ")), ub: Some(l.trim().to_string()), summary };
     }
     let status = match out.status.code() {
